@@ -41,7 +41,10 @@ def run(ctx: core.Ctx):
     for variant in smooth.VARIANTS:
         for k in range(per_variant):
             mv = rng.choice([None, None, None, 0, 1, 4])   # sometimes too few valid cells -> pass-through branch
-            y, m, prm = smooth.make_case(rng, variant, min_ok=mv, small=ctx.quick and variant.endswith("r"))
+            kind = rng.choice([None, "spikes", "ndvi"]) if variant.endswith("r") else None
+            y, m, prm = smooth.make_case(rng, variant, kind=kind, min_ok=mv, small=ctx.quick and variant.endswith("r"))
+            if kind == "spikes":      # noisy base with downward spikes: the robust re-weighting matters
+                y = [v + rng.randint(-30, 30) - (rng.randint(500, 3000) if rng.random() < 0.12 else 0) for v in y]
             if all(m):
                 i = rng.randrange(len(m))
                 m[i] = False
@@ -62,10 +65,20 @@ def run(ctx: core.Ctx):
             ctx.count(variant)
             ctx.count("passthrough" if nvalid < smooth.min_valid(variant) else "fit")
             lines.append(smooth.line(variant, encs[0][0], encs[0][1], prm))
+            # the model is also run on one non-finite encoding (NaN placeholder), where the kernels have their own missing-cell test
+            extra = next((e for e in encs if e[2] == "NaN"), None)
+            lines.append(smooth.line(variant, extra[0], extra[1], prm) if extra else "noop")
             refs.append((variant, y, m, prm, encs, results))
     answers = ctx.driver.ask(lines)
-    for (variant, y, m, prm, encs, results), a in zip(refs, answers):
+    for (variant, y, m, prm, encs, results), a, a_nan in zip(refs, answers[0::2], answers[1::2]):
         model = smooth.parse_answer(a)
+        if a_nan != "err bad-op":
+            mn = smooth.parse_answer(a_nan)
+            rn = results[[e[2] for e in encs].index("NaN")]
+            if mn[0] == "curve" and smooth.in_int16(mn[1]) and not isinstance(rn[0], str):
+                if not np.array_equal(np.array(mn[2]), rn[0].astype(float)) or (mn[3] is not None and mn[3] != rn[1]):
+                    ctx.disagree("F", variant, dict(variant=variant, y=y, mask=[int(b) for b in m], params=prm, encoding="NaN"),
+                                 dict(band=mn[2][:8], lopt=mn[3]), dict(band=rn[0][:8].tolist(), lopt=rn[1]))
         inp = dict(variant=variant, y=y, mask=[int(b) for b in m], params=prm)
         nvalid = sum(m)
         r0 = results[0]
